@@ -53,7 +53,7 @@ structure PerChar where
 
 inductive Stmt where
   | mtch (r : Rx) (pc : PerChar)
-  | wait (r : Rx)
+  | wait (r : Rx) (pc : PerChar)
   | act (a : SAct)
   /-- clauses: patterns with priorities and the body block; optional else block -/
   | cas (greedy : Bool) (pc : PerChar) (clauses : List (List (Rx × Nat) × Nat)) (els : Option Nat)
@@ -71,7 +71,7 @@ structure Prog where
 inductive Frame where
   | run (blk pos : Nat)
   | m (r : Rx) (pc : PerChar)
-  | w (r0 r : Rx)
+  | w (r0 r : Rx) (pc : PerChar)
   /-- running case: (derivative, priority, body block) of every pattern still alive -/
   | c (greedy : Bool) (pc : PerChar) (alts : List (Rx × Nat × Nat)) (els : Option Nat)
   | loopMark (id : Nat) (blk : Nat)
@@ -107,7 +107,7 @@ def firstBlk (p : Prog) : Nat → Nat → Nat → Bool
       | s :: rest =>
         match s with
         | .mtch r _ => (r.deriv x).alive || (r.nullable && go rest)
-        | .wait _ => true
+        | .wait _ _ => true
         | .act _ => go rest
         | .cas _ _ cl els => (cl.any fun c => c.1.any fun pr => (pr.1.deriv x).alive) || els.isSome
         | .opt b => firstBlk p fuel b x || go rest
@@ -162,7 +162,7 @@ def disp (c : Ctx) : Nat → List AEv → Kont → STree
       let K' := Frame.run blk (pos + 1) :: rest
       match s with
       | .mtch r pc => disp c fuel pend (.m r pc :: K')
-      | .wait r => disp c fuel pend (.w r r :: K')
+      | .wait r pc => disp c fuel pend (.w r r pc :: K')
       | .act a =>
         match a with
         | .finish none => flushT pend (retHaltS "DONE")
@@ -197,17 +197,22 @@ def disp (c : Ctx) : Nat → List AEv → Kont → STree
         (raise c fuel [] true (.m r pc :: rest)))
     else if r.nullable then disp c fuel pend rest
     else raise c fuel pend false rest
-  | fuel + 1, pend, .w r0 r :: rest =>
+  | fuel + 1, pend, .w r0 r pc :: rest =>
+    -- every byte a wait consumes (matched, or skipped at a restart) is a byte of an enclosing
+    -- foreach; end-of-input is not a byte
+    let consume (K' : Kont) : STree :=
+      if c.x = symEnd && !c.o.waitEndForeach then flushT pend (.leaf (.next K'))
+      else flushT pend (perCharTree c pc (.leaf (.next K')) (raise c fuel [] true (.w r0 r pc :: rest)))
     let d := r.deriv c.x
     if d.alive then
-      flushT pend (if d.nullable && !d.canContinue then .leaf (.next rest) else .leaf (.next (.w r0 d :: rest)))
+      consume (if d.nullable && !d.canContinue then rest else .w r0 d pc :: rest)
     else if r.nullable then disp c fuel pend rest
     else
       let d0 := r0.deriv c.x
       if d0.alive then
-        flushT pend (if d0.nullable && !d0.canContinue then .leaf (.next rest) else .leaf (.next (.w r0 d0 :: rest)))
+        consume (if d0.nullable && !d0.canContinue then rest else .w r0 d0 pc :: rest)
       else if r0.nullable then disp c fuel pend rest   -- the empty match, right here
-      else flushT pend (.leaf (.next (.w r0 r0 :: rest)))
+      else consume (.w r0 r0 pc :: rest)
   | fuel + 1, pend, .c g pc alts els :: rest =>
     let alts' := (alts.map fun a => (a.1.deriv c.x, a.2.1, a.2.2)).filter fun a => a.1.alive
     if !alts'.isEmpty then
